@@ -22,6 +22,8 @@ def nth? {α : Type} : List α → Nat → Option α
 
 def step (s : St) : List String → St × String
   | ["new", n] => ({ fs := FS.empty, rm := RM.fresh (nat! n) }, "new")
+  | ["stop"] => (s, "stop 1")     -- a stop request does not change what a dump does
+  | ["newt", n] => ({ fs := FS.empty, rm := RM.fresh (nat! n) }, "newt 1")
   | ["reboot"] => ({ s with rm := RM.fresh s.rm.maxB }, "reboot")
   | ["ls"] => (s, "ls" ++ listing s.fs s.rm.maxB)
   | ["dump", v] =>
